@@ -174,6 +174,11 @@ def evaluate(case):
         inname = case.get("inname") or "in"
         inp = sb.path(inname)
         os.makedirs(inp)
+        for k, (rel, mc) in enumerate(files):
+            md = mc["module"].get("moddoc")
+            if md and md["lines"] and k % 2 == 0 and case.get("prior") is not None:
+                # characters str.splitlines() would break on, inside a module doc line
+                md["lines"] = list(md["lines"]) + ["Form\x0cfeed #and [more", "nel\x85 ]x ls\u2028 #y"]
         for rel, mc in files:
             p = os.path.join(inp, rel)
             os.makedirs(os.path.dirname(p), exist_ok=True)
